@@ -166,6 +166,9 @@ class _ASTMatcher:
             self._check_expression(node)
 
     def _check_expression(self, node):
+        if not hasattr(node, "region"):
+            # e.g. the literal pieces of an f-string: no place in the text to report
+            return
         mapping = {}
         if self._match_nodes(self.pattern, node, mapping):
             self.matches.append(ExpressionMatch(node, mapping))
